@@ -5,7 +5,7 @@ across threads.
     over a pool of different contractions is solver-chosen (every sequence of
     length <= K is a path); both `search` and `__call__`.
 (b) concurrent: real threads issue queries through one shared instance; a
-    scheduler serialises them and every function entry inside
+    scheduler serialises them and every function entry and return inside
     cotengra/reusable.py, cotengra/presets.py and the search entry points of
     cotengra/hyperoptimizers/hyper.py is a potential context switch.  WHICH
     thread runs next at each switch point is a solver variable (bounded number
@@ -26,7 +26,7 @@ STUBS = [
     "thread scheduler: worker threads block at every function entry of reusable.py / presets.py / hyper.py search entry points (sys.monitoring PY_START) until the controller hands them the baton; the controller's choice is a solver variable",
 ]
 ASSUMPTIONS = [
-    "context switches happen only at the monitored function entries (preemption between other bytecodes is outside); at most P preemptive switches per schedule",
+    "context switches happen only at the monitored function entries and returns (preemption between other bytecodes is outside); at most P preemptive switches per schedule",
     "sub-optimizers are deterministic here (greedy, optlib='random' with 2 repeats): the schedule / sequence is the only quantifier",
 ]
 OUTSIDE = ["more than 3 threads, more than 2 queries per thread", "preemption inside other modules", "process pools"]
@@ -229,8 +229,21 @@ class Scheduler:
                 w.at = f"{fn.rsplit('/', 1)[-1]}:{code.co_name}"
                 w.yield_()
 
+        def on_return(code, offset, retval):
+            fn = code.co_filename
+            if not any(fn.endswith(f) for f in sched.files):
+                return mon.DISABLE
+            if sched.names is not None and fn.endswith("hyper.py") and code.co_name not in sched.names:
+                return mon.DISABLE
+            w = sched.workers.get(threading.get_ident())
+            if w is not None and not sched.free_run:
+                w.at = f"{fn.rsplit('/', 1)[-1]}:{code.co_name}:return"
+                w.yield_()
+
         mon.register_callback(self.TOOL, mon.events.PY_START, on_start)
-        mon.set_events(self.TOOL, mon.events.PY_START)
+        # function returns are switch points too (a caller reads shared state right after a call returns)
+        mon.register_callback(self.TOOL, mon.events.PY_RETURN, on_return)
+        mon.set_events(self.TOOL, mon.events.PY_START | mon.events.PY_RETURN)
         self.installed = True
 
     def uninstall(self):
@@ -238,6 +251,7 @@ class Scheduler:
             mon = sys.monitoring
             mon.set_events(self.TOOL, 0)
             mon.register_callback(self.TOOL, mon.events.PY_START, None)
+            mon.register_callback(self.TOOL, mon.events.PY_RETURN, None)
             try:
                 mon.free_tool_id(self.TOOL)
             except Exception:  # noqa
@@ -285,15 +299,21 @@ def run_b(item, rec):
     kind = item["kind"]
     nthreads = item["threads"]
     P = 2 if tier == "quick" else 3
+    # the shared state lives in reusable.py / presets.py; each thread's sub-optimizer (hyper.py) is its own object,
+    # so only its entry points are switch points
     files = ["cotengra/reusable.py", "cotengra/presets.py", "cotengra/hyperoptimizers/hyper.py"]
-    names = {"search", "_search", "get_tree", "tree", "path", "__call__", "_get_suboptimizer", "_deconstruct_tree", "_reconstruct_tree", "setup"}
+    names = {"search", "get_tree", "tree", "path", "__call__"}
     case0 = dict(part="b", kind=kind, threads=nthreads, q0=item["q0"])
     # thread t asks queries plan[t]
-    plans = [[(item["q0"] + t) % 3, (item["q0"] + t + 1) % 3] for t in range(nthreads)]
-    modes = [["search", "call"], ["call", "search"], ["search", "search"]]
+    # one query is answered before the threads start (so that cache hits and misses mix);
+    # thread 0 asks a new contraction and then the cached one, the others ask new ones
+    warm = (item["q0"] + 1) % 3
+    plans = [[item["q0"], warm]] + [[(item["q0"] + 2 + t) % 4 if (item["q0"] + 2 + t) % 4 != warm else 3, item["q0"]] for t in range(nthreads - 1)]
+    modes = [["search", "search"], ["call", "search"], ["search", "call"]]
 
     def harness(ctx):
         opt = make_instance(kind)
+        opt.search(*POOL[warm])
         sched = Scheduler(files, names)
         results = {}
 
@@ -358,10 +378,11 @@ def run_b(item, rec):
                     probs.append(f"T{t} query {qi} ({mode}): {p}")
         sw = [s for i, s in enumerate(schedule) if i == 0 or schedule[i - 1][0] != s[0]]
         rec.refute(ctx, bool(probs), "every thread's answers belong to its own queries",
-                   lambda m: dict(case=dict(case0, plans=plans), problems=probs[:4], switches=[[a, b] for a, b in sw][:12], steps=[a for a, _ in schedule], signature=["C16b", kind, str(sw)[:200]]))
+                   lambda m: dict(case=dict(case0, plans=plans, warm=warm), problems=probs[:4], switches=[[a, b] for a, b in sw][:12], steps=[a for a, _ in schedule], signature=["C16b", kind, str(sw)[:200]]))
         return len(schedule)
 
-    out = symx.explore(harness, max_paths=(400 if tier == "quick" else 6000), deadline_s=(60 if tier == "quick" else 900))
+    shared_kind = kind.startswith("reusable")
+    out = symx.explore(harness, max_paths=((1200 if shared_kind else 300) if tier == "quick" else 20000), deadline_s=((50 if shared_kind else 30) if tier == "quick" else 1500))
     rec.add_explore(out)
     rec.sample(dict(part="b", kind=kind, threads=nthreads, plans=plans, schedules=out.paths, max_preemptions=P, yield_points_per_schedule=max([r for r in out.results if r] or [0])))
     rec.validated += 1
@@ -405,10 +426,12 @@ def replay(v):
         return False, "ok"
     # (b) re-run the recorded schedule with real threads
     files = ["cotengra/reusable.py", "cotengra/presets.py", "cotengra/hyperoptimizers/hyper.py"]
-    names = {"search", "_search", "get_tree", "tree", "path", "__call__", "_get_suboptimizer", "_deconstruct_tree", "_reconstruct_tree", "setup"}
+    names = {"search", "get_tree", "tree", "path", "__call__"}
     plans = case["plans"]
-    modes = [["search", "call"], ["call", "search"], ["search", "search"]]
+    modes = [["search", "search"], ["call", "search"], ["search", "call"]]
     opt = make_instance(case["kind"])
+    if case.get("warm") is not None:
+        opt.search(*POOL[case["warm"]])
     sched = Scheduler(files, names)
 
     def mk(t):
